@@ -860,10 +860,11 @@ def enc_size_stream(g, n=40, start_id=7000):
            *[[1000 + j for j in range(kk)] + [1000 + kk - 1] for kk in (2, 3, 4, 5, 8, 15, 16, 17, 31, 32, 33, 64, 65)],
            *[[500] + [1000 + j for j in range(kk)] + [1000 + kk - 1, 1000 + kk - 1] for kk in (7, 15, 16, 31)],
            [0] + list(range(1000, 1200, 10)) + [4096], list(range(4000, 4040)), [100 + (7 * j) % 50 for j in range(30)] + [35]]
+    cat += [[(1 << 32) + 4096], [1 << 33, (1 << 32) + 1], [(1 << 32) - 1, 1 << 32], [1 << 32, 4096], [(1 << 64) + 7, 100], [1 << 31, (1 << 31) + 1]]
     i = start_id
     for seq in cat + [[rnd.choice(pool) for _ in range(rnd.randint(1, 5))] for _ in range(n)]:
         i += 1
-        ops.append('enew %d' % i); ops.append('dnew %d 1000000' % i); ops.append('dallow %d %d' % (i, 1 << 21))
+        ops.append('enew %d' % i); ops.append('dnew %d 1000000' % i); ops.append('dallow %d %d' % (i, (1 << 70) if max(seq) >= (1 << 21) else (1 << 21)))
         warm = [(b'a', b'b', False), (b'c', b'd' * 10, False), (b'e', b'f', False)]
         ops.append('eenc %d 0 %s' % (i, ' '.join('%s:%s:%d' % (hx(n), hx(v), int(s)) for n, v, s in warm)))
         ops.append('pipe %d 1 %d' % (i, i))
@@ -1118,6 +1119,18 @@ def int_extra_stream(g):
         for v in (1000, 16384, 2 ** 32):
             e = int_octets(v, N)
             ops.append('idec %s %d' % (hx(e), N))
+    # integers far beyond anything a decimal conversion admits (CPython refuses int->str above 4300 digits)
+    for bits in (300, 1000, 14285, 14286, 14300, 20000, 70000):
+        for n in ((1 << bits), (1 << bits) - 1, (1 << bits) + 12345):
+            ops.append('ienchex %s %d' % (hx(n.to_bytes((n.bit_length() + 7) // 8, 'big')), g.rnd.choice([1, 4, 5, 7, 8])))
+    n = 10 ** 4300
+    for N in (1, 5, 8):
+        ops.append('ienchex %s %d' % (hx(n.to_bytes((n.bit_length() + 7) // 8, 'big')), N))
+    # remainders n - (2^N - 1) of every bit length 1..130 (all-ones and a single one)
+    for N in (1, 4, 5, 6, 7, 8):
+        for bl in range(1, 131):
+            for r_ in ((1 << bl) - 1, 1 << (bl - 1)):
+                ops.append('ienc %d %d' % (r_ + (1 << N) - 1, N))
     return ops
 
 
@@ -1774,4 +1787,45 @@ def split_ambiguity_stream(start_id=29000):
         chunk = allf[i:i + 6]
         ops.append('eenc %d %d %s' % (e, (i // 6) % 2, ' '.join('%s:%s:0' % (hx(n), hx(v)) for n, v in chunk)))
         ops.append('pipe %d 1 %d' % (e, e))
+    return ops
+
+
+
+def huffman_expanding_table_stream(start_id=30000):
+    """literals whose Huffman form is LONGER on the wire than the decoded string (NUL / control / high octets), with
+    entry sizes at, just below and just above the table size measured by the decoded length; names too; every
+    literal kind; followed by references"""
+    ops = []
+    d = start_id
+    for tsize in (100, 64, 4096, 200):
+        for sym in (0x00, 0x01, 0xfe, 0x0a):
+            for slack in (0, 1, -1, 5):
+                for where in ('value', 'name'):
+                    total = tsize - slack            # entry size aimed at
+                    other = b'k' if where == 'value' else b''
+                    ln = total - 32 - len(other)
+                    if ln < 1:
+                        continue
+                    sv = bytes([sym]) * ln
+                    e = huff_encode(sv)
+                    hs = int_octets(len(e), 7, 0x80) + e
+                    ps = int_octets(len(other), 7) + other
+                    lit = b'\x40' + ((ps + hs) if where == 'value' else (hs + ps))
+                    d += 1
+                    ops.append('dnew %d 1000000' % d)
+                    ops.append('ddec %d 1 %s' % (d, hx(int_octets(tsize, 5, 0x20) + b'\x40\x01a\x01b' + lit)))
+                    ops.append('ddec %d 1 be' % d)
+                    ops.append('ddec %d 1 bf' % d)
+                    ops.append('ddec %d 0 %s' % (d, hx(lit + b'\xbe')))
+    # the same through an Encoder with Huffman on, piped
+    e_ = d + 1
+    for tsize in (100, 4096):
+        e_ += 1
+        ops.append('enew %d' % e_); ops.append('dnew %d 1000000' % e_)
+        ops.append('esize %d %d' % (e_, tsize))
+        for ln in (tsize - 33, tsize - 34, tsize - 32, (tsize - 33) * 5 // 8):
+            ops.append('eenc %d 1 %s:%s:0 %s:%s:0' % (e_, hx(b'a'), hx(b'b'), hx(b'k'), hx(b'\x00' * ln)))
+            ops.append('pipe %d 1 %d' % (e_, e_))
+            ops.append('eenc %d 1 %s:%s:0' % (e_, hx(b'k'), hx(b'\x00' * ln)))
+            ops.append('pipe %d 1 %d' % (e_, e_))
     return ops
